@@ -27,7 +27,7 @@ def run(rep, facts, tier):
     rep.explanation = ('Effect and must-call rules on the generic MIR of DataSampleCache<D>: read_* / select_* never remove from the sample store; take_* return exactly what they '
                        'remove; read_* mark every reported sample as read; both select functions sort by sequence number; within one access the recorded generation per instance '
                        'only moves forward; the instance marker is written from that record.')
-    rep.assume('instance state, generation counts and KeepLast eviction over arbitrary histories are not decided')
+    rep.assume('the per-step mechanisms are decided; their composition over arbitrary access histories is argued, not computed')
     rep.rule('R08.1', 'read never removes: read_by_keys, read_bare_by_keys, select_keys_for_access, select_instance_keys_for_access contain no removing call on `datasamples`; '
                       'removal sites are exactly take_by_keys, take_bare_by_keys and add_sample (eviction)')
     rep.rule('R08.2', 'take returns what it removes: every element pushed to the result of take_* originates from datasamples.remove(ts) of the same iteration')
@@ -213,6 +213,10 @@ def run(rep, facts, tier):
         rep.check(ok, 'R08.5', '%s/viewed' % fn, 'records each accessed generation and marks the instances viewed', '%s does not record and mark the accessed generations on every path' % fn, b.where())
 
     rule_08_6(rep, fx)
+
+    # ------------------------------------------------------------ R08.10 crossed roles (shared lint, rdv/swaplint.py)
+    from rdv import swaplint
+    swaplint.run_rule(rep, facts['default'], 'R08.10', ['dds::with_key::datasample_cache', 'dds::with_key::datareader', 'dds::no_key::datareader', 'dds::sampleinfo'])
 
 
 def rule_08_6(rep, fx):
